@@ -148,6 +148,7 @@ func runC12h(env *core.Env, ci any) {
 	env.Sched.Knobs.MaxSteps = 400000
 	env.Sched.Knobs.Horizon = 12 * time.Hour
 	sut.Install(env)
+	env.AcctInexact = true // (C13 mode) clients here abandon exchanges on purpose: only gauges and inequalities are judged
 	ca := simtls.NewCA("verifsim CA")
 	pw := newPolWorld(env, &polCase{})
 	pw.ca = ca
